@@ -272,6 +272,7 @@ class FakeSnowflakeCursor:
         if set_database := transformed.args.get("set_database"):
             self._conn.database = set_database
             self._conn.database_set = True
+            result_sql = SQL_SUCCESS
 
         elif set_schema := transformed.args.get("set_schema"):
             self._conn.schema = set_schema
@@ -280,6 +281,11 @@ class FakeSnowflakeCursor:
                 # USE SCHEMA db.schema
                 self._conn.database = set_schema_database
                 self._conn.database_set = True
+            result_sql = SQL_SUCCESS
+
+        elif cmd in ("TRANSACTION", "COMMIT", "ROLLBACK"):
+            # begin/commit/rollback return the success status, like snowflake
+            result_sql = SQL_SUCCESS
 
         elif create_db_name := transformed.args.get("create_db_name"):
             # we created a new database, so create the info schema extensions
